@@ -220,9 +220,9 @@ impl Validation {
             return false;
         }
 
-        // Must be all digits, or start with - followed by digits
-        if let Some(digits) = index.strip_prefix('-') {
-            // Negative index: -1, -2, etc.
+        // Must be all digits, or start with - or ~ followed by digits
+        if let Some(digits) = index.strip_prefix('-').or_else(|| index.strip_prefix('~')) {
+            // Negative index: -1, -2, etc. or tilde index: ~1, ~2, etc.
             !digits.is_empty() && digits.chars().all(|c| c.is_ascii_digit())
         } else {
             // Positive index: 0, 1, 2, etc.
